@@ -4,7 +4,7 @@ use crate::core::{DynScenario, Tier};
 use crate::scen;
 
 pub fn all_scenarios() -> Vec<Box<dyn DynScenario>> {
-    vec![Box::new(scen::c16::C16), Box::new(scen::c14::C14)]
+    vec![Box::new(scen::c16::C16), Box::new(scen::c14::C14), Box::new(scen::c02::C02), Box::new(scen::c03::C03)]
 }
 
 pub fn find_scenario(name: &str) -> Option<Box<dyn DynScenario>> {
@@ -61,6 +61,24 @@ pub fn property(id: &str) -> Option<PropSpec> {
             ],
             components_real: vec!["every deserialize entry point + CpcWrapper::new", "all accessors, update, merge/union, to_sketch/compact/freeze, serialize on the values returned", "Writer node: real sketches of every family producing the pristine images"],
             components_stub: vec!["raw disk / wire with fault injector", "allocator seam (counting + 1 GiB hard cap)", "child-process supervisor (abort / hang detection)"],
+        },
+        "C02" => PropSpec {
+            id: "C02",
+            level: "exploration",
+            parts: vec![p("c02_hll_replicas", REL, BOTH)],
+            rule: "one run = one lg_k, one coupon stream (1-3 phases drawn from 9 generators: uniform/geometric, hot slots, staircase forcing Hll4 cur_min shifts, staircase with values >= cur_min+15, exact repeats and values to 63, same-register different-coupon, bursts sitting on promotion thresholds, dense fill, descending values; or hashed items) delivered to six replicas: group A (Hll4/6/8) on one totally ordered channel with duplicates, group B (Hll4/6/8) each on its own at-least-once channel with PRNG-chosen reordering, duplicate delivery and loss/retransmit. After every shared-channel delivery: bit-identical estimate and bounds across the three types; at every mode transition, at scripted Check points and at quiescence: coupon set / registers / cur_min / num_at_cur_min / aux map / kxq equal to the textbook model of what was delivered, both via the state hook and via serialize() decoded by the independent reader; at quiescence all six replicas converge. A run is non-trivial if a group-B delivery happened; distinct = distinct (fault kinds fired, probes reached, sequence of mode transitions, lg_k, final mode) keys.",
+            assumptions: vec!["HLL coupon derivation from an item is checked by C16 and reused here for hashed items", "speccodec HLL decoder (DESIGN.md Appendix A) for the image view; a decoder rejection is counted as a probe here and judged by C12"],
+            components_real: vec!["HllSketch::update / update_with_coupon (all modes, promotions, Array4/6/8, AuxMap)", "estimate / lower_bound / upper_bound", "serialize"],
+            components_stub: vec!["ordered and at-least-once channels (harness)", "textbook register model (oracle)", "independent HLL image decoder"],
+        },
+        "C03" => PropSpec {
+            id: "C03",
+            level: "exploration",
+            parts: vec![p("c03_hll_union", REL, BOTH)],
+            rule: "one run = 2-6 workers (lg_k x type x target mode empty/list/set/array), 2-3 aggregators holding HllUnion(lg_max_k) plus a root, an action script of worker updates, flushes in three forms (borrowed in-memory sketch; serialize() image on the wire; image of the sketch first passed through a throw-away union, i.e. out-of-order), foreign array images with the out-of-order flag, at-least-once delivery with reorder / duplicate / loss, update_value, reset, to_sketch(t)->root. After every delivery: estimate > 0 once a non-empty input arrived, lg_config_k; at Check points and at quiescence for every aggregator and every t: coupon set or max-folded registers equal to the model of the contributions since reset at lg = min(lg_max_k, array inputs), estimate/bounds bit-identical across t and equal to the union's own. A run is non-trivial if at least one message was delivered over the wire; distinct = distinct (fault kinds, sequence of (contribution kind, flush form), final lg_k) keys.",
+            assumptions: vec!["order/repetition independence is demanded of register/coupon state and lg_k only, never of the estimate (HIP is history-dependent by design)", "foreign images use the updatable layout without aux exceptions (variants are C13's)"],
+            components_real: vec!["HllUnion::update / update_value / reset / to_sketch / estimate / bounds / lg_config_k", "HllSketch::serialize + deserialize on every wire delivery"],
+            components_stub: vec!["at-least-once network (harness)", "ForeignWriter (independent HLL encoder)", "contribution-set model (oracle)"],
         },
         _ => return None,
     })
